@@ -1,6 +1,9 @@
 import TunnoxModel.Spec.C20
 import TunnoxModel.Proofs.Src
 /-! Helper lemmas for C20. -/
+-- one simp set serves several match arms; unused members in one arm are expected
+set_option linter.unusedSimpArgs false
+
 namespace Tunnox.C20
 open Gen
 
@@ -46,7 +49,7 @@ theorem isPrefixOf_self_append (w x : Bytes) : w.isPrefixOf (w ++ x) = true := b
 theorem drop_self_append (w x : Bytes) : (w ++ x).drop w.length = x := by
   induction w with
   | nil => rfl
-  | cons a w ih => simpa using ih
+  | cons a w ih => simp [ih]
 
 theorem toNat_beq (m : Byte) (k : Nat) (hk : k < 256) : (m.toNat == k) = (m == u8 k) := by
   have h1 : (u8 k).toNat = k := by simp [u8, UInt8.toNat_ofNat']; omega
@@ -192,8 +195,7 @@ theorem handshake_flat_holds (c : IPText) (bs : Bytes) :
 /-! ### The adapter -/
 
 theorem isPrefixOf_self (w : Bytes) : w.isPrefixOf w = true := by
-  have := isPrefixOf_self_append w []
-  simpa using this
+  simp
 
 theorem ad_reply_cmd : isReply 7 (sendReply0 adapter.socksRepCommandNotSupported) = true := by decide
 theorem ad_reply_atyp : isReply 8 (sendReply0 adapter.socksRepAddrTypeNotSupported) = true := by decide
